@@ -468,6 +468,22 @@ def run_prop(ctx, props_file, assume, known_match, witness_replay, rule, own_pur
     opens = open_known(prop)
     unmatched = []
     matched = collections.defaultdict(list)
+
+    def ext_of(entry):
+        name = entry.get("extension")
+        for ext in extensions():
+            if name and ext.__name__.split(".")[-1] == "ext_" + name:
+                return ext
+        return None
+    prop_match, prop_replay = known_match, witness_replay
+
+    def known_match(e, f):        # entries recorded by an extension are matched / replayed by that extension
+        ext = ext_of(e)
+        return ext.known_match(e, f) if ext is not None and hasattr(ext, "known_match") else prop_match(e, f)
+
+    def witness_replay(e):
+        ext = ext_of(e)
+        return ext.witness_replay(e) if ext is not None and hasattr(ext, "witness_replay") else prop_replay(e)
     for f in mine:
         for e in opens:
             if known_match(e, f):
